@@ -411,9 +411,15 @@ def resize_image_to_macro_block(
     return image
 
 
+def _frame_number(file_name: str) -> int:
+    """Returns the number in a frame file name (``frame_<number>.png``)."""
+    stem = os.path.splitext(file_name)[0]
+    return int(stem.rsplit("_", 1)[-1])
+
+
 def _load_images(frames_dir: str) -> list:
     frames = [
         os.path.join(frames_dir, frame)
-        for frame in sorted(os.listdir(frames_dir))
+        for frame in sorted(os.listdir(frames_dir), key=_frame_number)
     ]
     return [imageio.imread(frame) for frame in frames]
